@@ -837,6 +837,9 @@ func RunBounds(c *Ctx, allowed []allowSite) {
 				return true
 			})
 		}
+		if !ok && siteExpr != nil && holder != nil && rangeIndexInBounds(holder, siteExpr) {
+			why, ok = "the index is the key of a range over the indexed slice, which the loop body does not change", true
+		}
 		if !ok && siteExpr != nil {
 			if w, proved := boundsByCallers(c, holder, siteExpr); proved {
 				why, ok = w, true
@@ -1311,6 +1314,11 @@ func rangeIndexInBounds(fi *FuncInfo, e ast.Expr) bool {
 		return v
 	}
 	va, vi := varOf(ix.X), varOf(ix.Index)
+	if va == nil && vi != nil {
+		// x.f[i] inside `for i := range x.f` with x a local variable: in bounds when the loop body neither assigns i, x or
+		// any field path of x, nor takes the address of x (the range expression is evaluated once)
+		return rangeIndexOverFieldPath(fi, ix, vi)
+	}
 	if va == nil || vi == nil {
 		return false
 	}
@@ -1533,4 +1541,76 @@ func boundsHoldIn(c *Ctx, g *FuncInfo, site ast.Expr) (int, bool) {
 		}
 	}
 	return found, true
+}
+
+func rangeIndexOverFieldPath(fi *FuncInfo, ix *ast.IndexExpr, vi *types.Var) bool {
+	info := fi.Pkg.TypesInfo
+	sel, ok := unparen(ix.X).(*ast.SelectorExpr)
+	if !ok {
+		return false
+	}
+	root := rootIdent(sel)
+	if root == nil {
+		return false
+	}
+	rv, _ := info.Uses[root].(*types.Var)
+	if rv == nil || rv.IsField() || rv.Parent() == nil || rv.Parent() == rv.Pkg().Scope() {
+		return false // not a local
+	}
+	if _, isPtr := rv.Type().Underlying().(*types.Pointer); isPtr {
+		return false // the storage may be shared
+	}
+	if t := info.TypeOf(sel); t == nil {
+		return false
+	} else if _, isSlice := t.Underlying().(*types.Slice); !isSlice {
+		return false
+	}
+	path := types.ExprString(sel)
+	var loop *ast.RangeStmt
+	ast.Inspect(fi.Body, func(n ast.Node) bool {
+		rs, ok := n.(*ast.RangeStmt)
+		if !ok || rs.Tok != token.DEFINE || rs.Key == nil || rs.Value != nil {
+			return true
+		}
+		if k, isID := rs.Key.(*ast.Ident); isID && info.Defs[k] == vi && rs.Body.Pos() <= ix.Pos() && ix.End() <= rs.Body.End() && types.ExprString(unparen(rs.X)) == path {
+			loop = rs
+		}
+		return true
+	})
+	if loop == nil {
+		return false
+	}
+	bad := false
+	touches := func(x ast.Expr) bool {
+		x = unparen(x)
+		if id, ok := x.(*ast.Ident); ok {
+			return info.Uses[id] == vi || info.Defs[id] == vi || info.Uses[id] == rv
+		}
+		if r := rootIdent(x); r != nil && info.Uses[r] == rv {
+			return true
+		}
+		return false
+	}
+	ast.Inspect(loop.Body, func(nd ast.Node) bool {
+		switch x := nd.(type) {
+		case *ast.AssignStmt:
+			for _, l := range x.Lhs {
+				if touches(l) {
+					bad = true
+				}
+			}
+		case *ast.IncDecStmt:
+			if touches(x.X) {
+				bad = true
+			}
+		case *ast.UnaryExpr:
+			if x.Op == token.AND && touches(x.X) {
+				bad = true
+			}
+		case *ast.FuncLit:
+			bad = true
+		}
+		return !bad
+	})
+	return !bad
 }
